@@ -151,6 +151,7 @@ pub fn ttl_ops(persistent: bool) -> Vec<Op> {
         Op::Delete { k: a, ts: 0 },
         Op::Cas { k: a, expect: V_X, new: V_Y, ts: 0, ttl: 1 },
         Op::Cas { k: a, expect: V_X, new: V_Y, ts: 0, ttl: 0 },
+        Op::Cas { k: a, expect: V_X, new: V_X, ts: 0, ttl: 0 }, // same bytes: still a write (drops the TTL)
         Op::Incr { k: a, delta: 1, ts: 0, ttl: 1 },
         Op::Incr { k: a, delta: 1, ts: 0, ttl: 0 },
         Op::Incr { k: a, delta: 1, ts: TS_B, ttl: 0 },
@@ -364,6 +365,7 @@ pub fn ts_ops(persistent: bool, ttl: bool) -> Vec<Op> {
         Op::Delete { k: a, ts: FUT + 3 },
         Op::Cas { k: a, expect: V_X, new: V_Y, ts: 0, ttl: 0 },
         Op::Cas { k: a, expect: V_JSON, new: V_Y, ts: FUT + 9, ttl: 0 }, // mismatch: must not consume
+        Op::Cas { k: a, expect: V_X, new: V_X, ts: FUT + 5, ttl: 0 }, // same bytes: still a write with a timestamp
         Op::Incr { k: a, delta: 1, ts: 0, ttl: 0 },
         Op::Incr { k: a, delta: 1, ts: FUT + 1, ttl: 0 },
         Op::Ifa { k: a, v: V_JSON },
